@@ -59,6 +59,7 @@ def case_strategy(draw):
     # the terminal declares its variables by packet position or by the
     # object they are mapped from
     case["via"] = draw(st.sampled_from(["packet", "process"]))
+    case["first_group"] = draw(st.sampled_from([False, False, True]))
     # a second motor on a second terminal of the same type, own inputs
     case["other"] = draw(st.none() | motor_inputs())
     return case
@@ -172,7 +173,35 @@ def run_case(case):
         classes.append("d-near-64-bit-end")
     with kernel.tracking() as tracker:
         try:
-            ec, terms, devs, sg = groups.build_group(spec, "fast")
+            if case.get("first_group"):
+                # the motors were in another fast group before (other
+                # devices, other frame layout); then they are put, together
+                # with an input device on a terminal in front of theirs,
+                # into the group that is judged
+                from ebpfcat.ebpfcat import FastEtherCat, FastSyncGroup
+                spec["terminals"].append({
+                    "position": 990, "use_fmmu": False,
+                    "in": [{"name": "x0", "size": "I", "via": "packet"},
+                           {"name": "x1", "size": "H", "via": "packet"}],
+                    "out": [], "in_off": 0x1100, "out_off": 0x1400,
+                    "in_pad": 1, "out_pad": 0})
+                ec = FastEtherCat("verif")
+                shared = {}
+                terms = [groups.make_terminal(ec, t, i, shared)
+                         for i, t in enumerate(spec["terminals"])]
+                devs = [groups.make_device(d, terms)
+                        for d in spec["devices"]]
+                extra = groups.make_device(
+                    {"type": "AnalogInput",
+                     "links": {"data": [len(terms) - 1, "x0"]}}, terms)
+                first = FastSyncGroup(ec, devs[::-1])
+                first.allocate()
+                dsl.Loaded(first)
+                sg = FastSyncGroup(ec, [extra] + devs)
+                sg.allocate()
+                classes.append("motors-were-in-another-group")
+            else:
+                ec, terms, devs, sg = groups.build_group(spec, "fast")
             loaded = dsl.Loaded(sg)
         except AssembleError as e:
             return dict(ok=False, nontrivial=True, classes=classes,
@@ -216,7 +245,8 @@ def run_case(case):
                               ("proportional", c["gain"])):
                 struct.pack_into("<I", init, m.__dict__[name], val)
             where.append((opos, lay))
-        fd = dsl.array_fd(tracker, len(init))
+        fd = dsl.array_fd(tracker, len(init),
+                          last=bool(case.get("first_group")))
         pkt = bytearray(14) + frame
         obs = dsl.run_both(loaded, tracker, pkt,
                            arrays={fd: (sg.properties, bytes(init))})
